@@ -2,6 +2,7 @@ package c17
 
 import (
 	"fmt"
+	"strings"
 	"time"
 
 	"verif/core"
@@ -125,6 +126,10 @@ func runLookup(e *core.Env) {
 
 func lookupCase(e *core.Env, rec *recBuf, w *world, ci int, r *core.RNG, j lookupJob) {
 	name := fmt.Sprintf("l%d-s%d%s.c17.test", ci, e.Seed, rec.suffix())
+	if r.Chance(1, 4) {
+		// names up to the 253-byte limit (the two queries of a lookup share one buffer)
+		name = padName(name, r.Pick(100, 200, 241, 242, 243, 244, 250, 253))
+	}
 	g := &gen{r: r, al: w.al, name: name, tag: "lookup", modest: r.Chance(1, 3)}
 	var sc *script
 	switch j.mode {
@@ -411,4 +416,19 @@ func parserCase(e *core.Env, rec *recBuf, w *world, res resolverAPI, ci int, r *
 			c.viol("failed_although_both_answered", out3, "genuine re-lookup of %s failed: %v", name, out3.Err)
 		}
 	}
+}
+
+// padName prepends labels of at most 63 bytes until the name is total bytes long.
+func padName(base string, total int) string {
+	for len(base) < total {
+		n := min(63, total-len(base)-1)
+		if n < 1 {
+			break
+		}
+		if total-len(base)-1-n == 1 {
+			n-- // never leave room for an empty label
+		}
+		base = strings.Repeat("x", n) + "." + base
+	}
+	return base
 }
